@@ -238,6 +238,19 @@ func (te *TEnv) bin(x EBin) TV {
 	case "<==>":
 		return TV{Eq(te.bool(x.X), te.bool(x.Y)), nil}
 	}
+	if x.Op == "==" || x.Op == "!=" {
+		// the address of a field is nil exactly when... never: the object was dereferenced to form it
+		xa, xb := te.tr(x.X), te.tr(x.Y)
+		if av, ok := xa.V.(AddrV); ok {
+			if t, ok := xb.V.(Term); ok && t.S == "null" {
+				r := Eq(av.Obj, TNull)
+				if x.Op == "!=" {
+					r = Not(r)
+				}
+				return TV{r, nil}
+			}
+		}
+	}
 	a, b := te.term(x.X), te.term(x.Y)
 	a, b = numUnify(a, b)
 	if a.Sort != b.Sort {
@@ -546,22 +559,22 @@ func (te *TEnv) call(x ECall) TV {
 		return TV{T(SBool, "(< (birth %s) %s)", t.S, now.S), nil}
 	case "min", "max":
 		a, b := numUnify(te.term(arg(0)), te.term(arg(1)))
-		op := "<="
-		if x.F == "max" {
-			op = ">="
-		}
-		return TV{Ite(T(SBool, "(%s %s %s)", op, a.S, b.S), a, b), nil}
+		return TV{minmax(x.F == "max", a, b), nil}
 	case "real":
 		return TV{ToReal(te.term(arg(0))), nil}
 	case "ceil":
 		t := ToReal(te.term(arg(0)))
-		return TV{T(SReal, "(to_real (- (to_int (- %s))))", t.S), nil}
+		if te.quant == 0 {
+			return TV{v.ceilOf(t), nil}
+		}
+		v.ctx.Declare("ceilI", []Sort{SReal}, SInt)
+		return TV{T(SReal, "(to_real (ceilI %s))", t.S), nil}
 	case "floor":
 		t := ToReal(te.term(arg(0)))
 		return TV{T(SReal, "(to_real (to_int %s))", t.S), nil}
 	case "trunc":
 		t := ToReal(te.term(arg(0)))
-		return TV{T(SInt, "(ite (>= %s 0.0) (to_int %s) (- (to_int (- %s))))", t.S, t.S, t.S), nil}
+		return TV{v.truncOf(t), nil}
 	case "isnil":
 		t := te.term(arg(0))
 		return TV{Eq(t, ZeroOf(t.Sort)), nil}
@@ -616,6 +629,9 @@ func (te *TEnv) call(x ECall) TV {
 			sfail("deref needs a typed pointer")
 		}
 		et := deref(a.T)
+		if av, isAddr := a.V.(AddrV); isAddr {
+			return TV{v.loadField(te.st, av.Obj, av.T, av.Field, te.quiet()), et}
+		}
 		return TV{v.loadCell(te.st, a.V.(Term), et, te.quiet()), et}
 	case "elemref":
 		a := te.tr(arg(0))
@@ -696,4 +712,55 @@ func (v *FnVerifier) usedSpecs(name string) {
 		v.eng.specUsed = map[string]bool{}
 	}
 	v.eng.specUsed[name] = true
+}
+
+// integer-valued reals are kept in the shape (to_real <int term>) so that truncation
+// and comparison stay in integer arithmetic (solvers are weak on nested to_int).
+func intForm(t Term) (string, bool) {
+	if strings.HasPrefix(t.S, "(to_real ") && strings.HasSuffix(t.S, ")") && matchParen(t.S, 0) == len(t.S)-1 {
+		return t.S[len("(to_real ") : len(t.S)-1], true
+	}
+	return "", false
+}
+
+func minmax(isMax bool, a, b Term) Term {
+	op := "<="
+	if isMax {
+		op = ">="
+	}
+	if ia, ok := intForm(a); ok {
+		if ib, ok := intForm(b); ok {
+			return T(SReal, "(to_real (ite (%s %s %s) %s %s))", op, ia, ib, ia, ib)
+		}
+	}
+	return Ite(T(SBool, "(%s %s %s)", op, a.S, b.S), a, b)
+}
+
+// ceilOf: a fresh integer k with k-1 < x <= k, returned as (to_real k).
+func (v *FnVerifier) ceilOf(x Term) Term {
+	if i, ok := intForm(x); ok {
+		return T(SReal, "(to_real %s)", i)
+	}
+	if v.ceils == nil {
+		v.ceils = map[string]Term{}
+	}
+	v.ctx.Declare("ceilI", []Sort{SReal}, SInt)
+	k := T(SInt, "(ceilI %s)", x.S)
+	if _, ok := v.ceils[x.S]; !ok {
+		// the defining property, instantiated for this argument
+		v.ctx.Assert(T(SBool, "(and (< (to_real (- %s 1)) %s) (<= %s (to_real %s)))", k.S, x.S, x.S, k.S))
+		v.ceils[x.S] = k
+	}
+	return T(SReal, "(to_real %s)", k.S)
+}
+
+// truncOf: Go's float-to-int conversion (toward zero).
+func (v *FnVerifier) truncOf(x Term) Term {
+	if i, ok := intForm(x); ok {
+		return Term{i, SInt}
+	}
+	r := v.ctx.Fresh("trunc", SInt)
+	v.ctx.Assert(T(SBool, "(and (=> (>= %s 0.0) (and (<= (to_real %s) %s) (< %s (to_real (+ %s 1))))) (=> (< %s 0.0) (and (< (to_real (- %s 1)) %s) (<= %s (to_real %s)))))",
+		x.S, r.S, x.S, x.S, r.S, x.S, r.S, x.S, x.S, r.S))
+	return r
 }
